@@ -117,17 +117,31 @@ def run(ctx):
                 bad.append("all shadow assertions hold but nanoc exit=%s exe=%s" % (r["rc"], r["exe"]))
         if missing and not warned:
             bad.append("function(s) %s without shadow block not reported" % missing)
+        got_counts = [(t["name"], t["nfail"] if t["verdict"] == "FAILED" else 0) for t in tests]
+        if not bad and got_counts != [(w["fn"], w["fails"]) for w in want]:
+            bad.append("tests run and failed assertions per test %s, prescribed %s" % (got_counts, [(w["fn"], w["fails"]) for w in want]))
         if bad:
             # attribution: does the evaluator's known deviation explain the verdicts?
             explained = None
-            for s in [x for x in ENGINE_SWITCHES["interp"] if x in ks]:
-                w2 = prescribe(ctx, [job("x", progs[pid], dev=[s], what="shadow")], workers=2)[0]["x"]["shadows"]
+            singles = [x for x in ENGINE_SWITCHES["interp"] if x in ks]
+            for s in singles + (["+".join(singles)] if len(singles) > 1 else []):
+                w2 = prescribe(ctx, [job("x", progs[pid], dev=s.split("+"), what="shadow")], workers=2)[0]["x"]["shadows"]
                 f2 = {w["fn"]: w["fails"] for w in w2}
-                if (named == {f for f, v in f2.items() if v > 0}) and ((r["rc"] != 0) == any(v > 0 for v in f2.values())) and (r["exe"] == (not any(v > 0 for v in f2.values()))):
+                if got_counts == [(w["fn"], w["fails"]) for w in w2 if w["status"] != "skipped"] and (named == {f for f, v in f2.items() if v > 0}) and ((r["rc"] != 0) == any(v > 0 for v in f2.values())) and (r["exe"] == (not any(v > 0 for v in f2.values()))):
                     explained = s; break
+            if not explained:     # findings identified by the builtins the program calls (evaluator's static array model)
+                for f in findings_for(PROP):
+                    calls_ = f.get("match", {}).get("calls")
+                    if calls_ and any(c03.has_call(progs[pid], c) for c in calls_):
+                        ctx.known(f["id"], "the gate follows the evaluator's deviating verdict, e.g. program %s" % pid); stats["known:" + f["id"]] += 1
+                        explained = "pattern"
+                        break
+                if explained == "pattern":
+                    continue
             if explained:
-                ctx.known(ks[explained], "the gate follows the evaluator's deviating verdict, e.g. program %s" % pid)
-                stats["known:" + ks[explained]] += 1
+                for s1 in explained.split("+"):
+                    ctx.known(ks[s1], "the gate follows the evaluator's deviating verdict, e.g. program %s" % pid)
+                stats["known:" + "+".join(ks[s1] for s1 in explained.split("+"))] += 1
                 continue
             rep = {"program": pid, "problems": bad, "source": r["src"], "transcript": text[-2500:], "prescribed_fails": fails}
             ctx.save_replay(pid + ".nano", r["src"])
@@ -157,8 +171,10 @@ def run(ctx):
             post2 = [x for x in rt2.records if "maxl" in x]
             if not post2 or post2[-1]["maxl"] != len(trace) + 1:
                 at = post2[-1]["maxl"] if post2 else 0
-                ctx.violation("nanoc transcript is not a behaviour of Driver.tla: accepted prefix %d of %d events, next event %s"
-                              % (at - 1, len(trace), trace[at - 1] if 0 < at <= len(trace) else "?"), ctx.save_replay("driver_trace.ndjson", src=tf))
+                nreset = sum(1 for e in trace[:max(at, 1)] if e["e"] == "Reset")
+                ctx.violation("nanoc transcript of program %s is not a behaviour of Driver.tla: accepted prefix %d of %d events, next event %s"
+                              % (index[nreset - 1] if 0 < nreset <= len(index) else "?", at - 1, len(trace), trace[at - 1] if 0 < at <= len(trace) else "?"),
+                              ctx.save_replay("driver_trace.ndjson", src=tf))
         else:
             validated = len(index)
         # binding self-test: a transcript claiming an executable after a failed test must be rejected
